@@ -108,6 +108,8 @@ def event(uid, desc, seq, ext, reserved, filled_true=(), extra_int=()):
         data[k] = v
     ts = {k: 10.0 + seq for k in data}
     filled = {k: (k in filled_true) for k in ext}
+    if reserved and seq % 2:
+        filled.update({"time": True, "seq_num": True})      # reserved names in the nested `filled` dict too
     return {"uid": uid, "descriptor": desc, "time": 3.0 + seq, "seq_num": seq, "data": data, "timestamps": ts, "filled": filled}
 
 
@@ -117,7 +119,7 @@ def pack_events(evs):
             "seq_num": [e["seq_num"] for e in evs],
             "data": {k: [e["data"][k] for e in evs] for k in keys},
             "timestamps": {k: [e["timestamps"][k] for e in evs] for k in keys},
-            "filled": {k: [e["filled"][k] for e in evs] for k in evs[0]["filled"]}}
+            "filled": {k: [e["filled"].get(k, True) for e in evs] for k in evs[0]["filled"]}}
 
 
 START = {"uid": "run-1", "time": 1.5, "scan_id": 3, "md": {"a": [1, {"b": 2.25}], "s": "t"}}
